@@ -81,7 +81,7 @@ def step (st : St) : List String → St × String
             match res with
             | .ok r =>
               let vs := (r.versions.map (fun x => (st2.names.getD x.1 "?", x.2))).foldl (fun acc x => insertStr x acc) []
-              (st2, s!"ok {r.first} {r.last} [{joinWith "," (vs.map (fun x => s!"{x.1}:{x.2}"))}] offs={joinWith "," (r.offsets.map toString)}")
+              (st2, s!"ok {r.first} {r.last} [{joinWith "," (vs.map (fun x => s!"{x.1}:{x.2}"))}] offs={if head.contains "nooffs" then "*" else joinWith "," (r.offsets.map toString)}")
             | .error e => (st2, "err " ++ showErr e)
           | none => (st, "bad-op")
         | none => (st, "bad-op")
